@@ -19,6 +19,7 @@ PROBES = ["", "\n", "10", "10 ", "10 A=1", "10 A=1\n", "\n\n10 A=1\n\n", "10 A=1
           "10 A=-+-1", "10 A=NOT NOT B", "10 PRINT;", "10 ?", "10 PRINT A B", "10 PRINT@32,\"X\"", "10 NEXT", "10 NEXT I,J",
           "10 HLINE-(1,2),PSET", "10 HLINE(0,0)-(1,1),PRESET,BF", "10 ON ERR GOTO 10", "10 ONERRGOTO10", "10 TO=1", "10 IN=2",
           "10 ELSEX=1", "10 A=1ELSE", "10 X=1E5ELSE", "99999 END", "10 A=1:", "10 :", "10 ::A=1", "10 A=(((((((((1)))))))))",
+          "10 LET A$(1)=\"ABC", "10 A$(1)=\"ABC", "10 LET A$=\"ABC", "10 A$=\"ABC", "10 LET A=1", "10 LET A(1)=2", "10 LET A$(1)=\"X\"",
           "10 STRING$=1", "10 A$=STRING$(3,65)", "10 A=INSTR(A$,B$)", "10 Ä=1", "10 PRINT \"Ä\"", "10 REM Ä"]
 
 
